@@ -108,6 +108,9 @@ fn run_case(c: &Case, s: &Subject) -> Res {
                             r.violations.push((format!("{fam}|write-error-on-own-output|{ctx}"), format!("step {k}: write({len}) on a file the SDK itself produced failed: {e}")));
                         } else if kind == "raw" {
                             r.counters.push((format!("trivial:non-jumbf-store-rejected:{fam}:{e}"), 1));
+                        } else if s.origin == "tiny" && s.state != "layout" {
+                            // the tiny assets are written by our own encoders from the format specs: valid by construction
+                            r.violations.push((format!("{fam}|write-refused:{e}|{}", s.name), format!("step {k}: first write({len}) refused on a valid asset: {e}")));
                         } else {
                             r.counters.push((format!("unjudged:write-refused:{fam}:{}:{e}", s.name), 1));
                         }
